@@ -20,7 +20,7 @@ func (c *Config) on(f string) bool {
 	}
 	if c.Wasm {
 		switch f {
-		case "closure", "result", "str.concat", "str":
+		case "closure", "result", "str.concat": // string literals, len, ==, printing work on wasm; concatenation does not
 			return false
 		}
 	}
@@ -351,7 +351,8 @@ func (g *G) valueOf(t *Type) Expr {
 	case KBool:
 		return &Lit{T: TBool, I: int64(g.pick(2))}
 	case KStr:
-		return &Lit{T: TStr, S: []string{"ab", "ferret", "", "x y", "zzz"}[g.pick(5)]}
+		// some non-ASCII text: the length of a string is its length in bytes on every target
+		return &Lit{T: TStr, S: []string{"ab", "ferret", "", "x y", "zzz", "café crème", "naïve ☕", "日本語", "ß"}[g.pick(9)]}
 	case KStruct:
 		sl := &StructLit{T: t}
 		for _, f := range t.Fields {
